@@ -19,7 +19,19 @@ def main(path):
             return 2
         from .lbzx import ENV
         print(' '.join(cmd))
-        return subprocess.call(cmd + [], env=ENV)
+        r = subprocess.run(cmd, env=ENV, stdout=subprocess.PIPE)
+        out = r.stdout.decode(errors='replace')
+        print(out.strip()[:1500])
+        try:
+            now = json.loads(out)
+        except ValueError:
+            return 2
+        obs = rec.get('observed', '')
+        # the recorded observation starts with kind(code); inv=<n> follows
+        same = obs.startswith('%s(%s)' % (now.get('kind'), now.get('code'))) and ('inv=%s ' % now.get('inv')) in obs + ' '
+        print('REPRODUCED: the recorded outcome occurs again on this tree' if same else
+              'NOT REPRODUCED: this tree now ends with %s(%s) inv=%s' % (now.get('kind'), now.get('code'), now.get('inv')))
+        return 1 if same else 0
     if rec.get('cmdline'):
         print(rec['cmdline'])
         return subprocess.call(rec['cmdline'], shell=True)
